@@ -45,6 +45,8 @@ class Src(DataStreamProcessor):
                 schema['primaryKey'] = r['pk'] if isinstance(r['pk'], str) else list(r['pk'])   # (the string form is legal Table Schema)
             if r.get('missingValues') is not None:
                 schema['missingValues'] = list(r['missingValues'])
+            # further schema-level properties (foreignKeys, custom keys): steps hand them on untouched
+            schema.update(copy.deepcopy(r.get('schema_props', {})))
             d = {'name': r['name'], 'path': r.get('path', r['name'] + '.csv'), 'schema': schema,
                  'profile': 'tabular-data-resource'}
             d.update(copy.deepcopy(r.get('props', {})))
